@@ -1,4 +1,5 @@
 (* Lemmas for Model/Wal.v (C06, C07). *)
+From Coq Require Import Sorting.Sorted.
 From SV Require Import Lib.Base Gen.WalConsts Model.Wal.
 Local Open Scope N_scope.
 
@@ -287,4 +288,275 @@ Lemma isort_by_in : forall {A} le (y : N * A) l, In y (isort_by le l) <-> In y l
 Proof.
   intros A le y l. induction l as [|x tl IH]; cbn; [tauto|].
   rewrite ins_by_in, IH. intuition congruence.
+Qed.
+
+(* ================================================================ recovery on an arbitrary disk (C07) *)
+Section RecoveryFacts.
+  Variable deser : bytes -> option entry.
+  Variable mac : bytes -> bytes.
+  Variable val_ok : bytes -> bool.
+  Variable dec_changes : bytes -> option (list change).
+  Variable deser_hdr : bytes -> option snaphdr.
+  Variable dec_map : bytes -> option state.
+
+  Notation verify := (verify mac).
+  Notation entry_changes := (entry_changes val_ok dec_changes).
+  Notation replay_frame := (replay_frame deser mac val_ok dec_changes).
+  Notation replay_file := (replay_file deser mac val_ok dec_changes).
+  Notation snap_valid := (snap_valid mac deser_hdr dec_map).
+  Notation load_snaps := (load_snaps mac deser_hdr dec_map).
+  Notation recover := (recover deser mac val_ok dec_changes deser_hdr dec_map).
+
+  (* a record body that recovery applies: decodes, tag verifies, payload decodes *)
+  Definition accepted (body : bytes) (e : entry) (cs : list change) : Prop :=
+    deser body = Some e /\ verify e = true /\ entry_changes e = Some cs.
+  (* a record body that recovery rejects and reports *)
+  Definition rejected (body : bytes) : Prop :=
+    deser body = None \/ exists e, deser body = Some e /\ verify e = false.
+
+  Lemma rejected_dec : forall body, rejected body \/ exists e, deser body = Some e /\ verify e = true.
+  Proof.
+    intro body. destruct (deser body) as [e|] eqn:E; [|left; left; exact E].
+    destruct (verify e) eqn:V; [right; exists e; auto | left; right; exists e; auto].
+  Qed.
+
+  (* ---- the state and counter do not depend on the statistics accumulated so far *)
+  Definition sc (r : rstate) : state * N := fst r.
+  Lemma replay_frame_sc : forall body st c s1 s2,
+    sc (replay_frame (st, c, s1) body) = sc (replay_frame (st, c, s2) body).
+  Proof.
+    intros. unfold Wal.replay_frame. destruct (deser body) as [e|]; [|reflexivity].
+    destruct (verify e); [|reflexivity]. destruct (entry_changes e); reflexivity.
+  Qed.
+  Lemma fold_replay_sc : forall bodies st c s1 s2,
+    sc (fold_left replay_frame bodies (st, c, s1)) = sc (fold_left replay_frame bodies (st, c, s2)).
+  Proof.
+    induction bodies as [|b tl IH]; intros; [reflexivity|]. cbn [fold_left].
+    pose proof (replay_frame_sc b st c s1 s2) as H.
+    destruct (replay_frame (st, c, s1) b) as [[st1 c1] t1].
+    destruct (replay_frame (st, c, s2) b) as [[st2 c2] t2].
+    cbn in H. inv H. apply IH.
+  Qed.
+
+  Lemma replay_frame_rejected : forall body r, rejected body ->
+    sc (replay_frame r body) = sc r /\
+    s_events (snd (replay_frame r body)) = s_events (snd r) ++ [EvSkipped] /\
+    s_failed (snd (replay_frame r body)) = s_failed (snd r) + 1.
+  Proof.
+    intros body [[st c] s] [Hd | [e [Hd Hv]]]; unfold Wal.replay_frame; rewrite Hd; [|rewrite Hv]; cbn; auto.
+  Qed.
+  Lemma replay_frame_accepted : forall body e cs st c s, accepted body e cs ->
+    replay_frame (st, c, s) body = (apply_changes st cs, N.max c (e_txid e), st_rec s (len cs)).
+  Proof. intros body e cs st c s [Hd [Hv Hc]]. unfold Wal.replay_frame. rewrite Hd, Hv, Hc. reflexivity. Qed.
+
+  (* ---- C07_no_invention *)
+  (* where a recovered value can come from: a verified record of some log file, or
+     a snapshot file whose keyed checksum verifies *)
+  Definition from_record (files : list bytes) (k : key) (v : val) : Prop :=
+    exists b body e cs, In b files /\ In body (fst (parse b)) /\ accepted body e cs /\ In (k, Some v) cs.
+  Definition from_snapshot (snaps : list (N * bytes)) (k : key) (v : val) : Prop :=
+    exists ts b h st, In (ts, b) snaps /\ snap_valid b = Some (h, st) /\ get st k = Some v.
+
+  Lemma replay_frame_src : forall body r k v,
+    get (fst (sc (replay_frame r body))) k = Some v ->
+    get (fst (sc r)) k = Some v \/ exists e cs, accepted body e cs /\ In (k, Some v) cs.
+  Proof.
+    intros body [[st c] s] k v H. unfold Wal.replay_frame in H.
+    destruct (deser body) as [e|] eqn:Hd; [|left; exact H].
+    destruct (verify e) eqn:Hv; [|left; exact H].
+    destruct (entry_changes e) as [cs|] eqn:Hc; [|left; exact H].
+    cbn in H. apply get_apply_changes_src in H. destruct H as [H|H]; [right | left; exact H].
+    exists e, cs. unfold accepted. auto.
+  Qed.
+  Lemma fold_replay_src : forall bodies r k v,
+    get (fst (sc (fold_left replay_frame bodies r))) k = Some v ->
+    get (fst (sc r)) k = Some v \/ exists body e cs, In body bodies /\ accepted body e cs /\ In (k, Some v) cs.
+  Proof.
+    induction bodies as [|b tl IH]; intros r k v H; [left; exact H|].
+    cbn [fold_left] in H. apply IH in H. destruct H as [H | [body [e [cs [Hi [Ha Hc]]]]]].
+    - apply replay_frame_src in H. destruct H as [H | [e [cs [Ha Hc]]]]; [left; exact H|].
+      right. exists b, e, cs. cbn; auto.
+    - right. exists body, e, cs. cbn; auto.
+  Qed.
+  Lemma replay_file_sc : forall r b,
+    sc (replay_file r b) = sc (fold_left replay_frame (fst (parse b)) r).
+  Proof.
+    intros r b. unfold Wal.replay_file. destruct (parse b) as [fs t]. cbn [fst].
+    destruct (fold_left replay_frame fs r) as [[st c] s]. reflexivity.
+  Qed.
+  Lemma fold_files_src : forall files r k v,
+    get (fst (sc (fold_left replay_file files r))) k = Some v ->
+    get (fst (sc r)) k = Some v \/ from_record files k v.
+  Proof.
+    induction files as [|b tl IH]; intros r k v H; [left; exact H|].
+    cbn [fold_left] in H. apply IH in H. destruct H as [H | [b' [body [e [cs [Hb [Hi [Ha Hc]]]]]]]].
+    - rewrite replay_file_sc in H. apply fold_replay_src in H.
+      destruct H as [H | [body [e [cs [Hi [Ha Hc]]]]]]; [left; exact H|].
+      right. exists b, body, e, cs. cbn; auto.
+    - right. exists b', body, e, cs. cbn; auto.
+  Qed.
+  Lemma load_snaps_src : forall l s k v,
+    get (fst (sc (load_snaps l s))) k = Some v -> from_snapshot l k v.
+  Proof.
+    induction l as [|[ts b] tl IH]; intros s k v H; [discriminate|].
+    cbn [Wal.load_snaps] in H. destruct (snap_valid b) as [[h st]|] eqn:E.
+    - exists ts, b, h, st. cbn; auto.
+    - apply IH in H. destruct H as [ts' [b' [h [st [Hi Hr]]]]]. exists ts', b', h, st. cbn; auto.
+  Qed.
+
+  Lemma recover_no_invention : forall d k v,
+    get (r_state (recover d)) k = Some v ->
+    from_record (wal_files d) k v \/ from_snapshot (d_snap d) k v.
+  Proof.
+    intros d k v H. unfold Wal.recover, r_state in H.
+    apply fold_files_src in H. destruct H as [H | H]; [right | left; exact H].
+    apply load_snaps_src in H. destruct H as [ts [b [h [st [Hi Hr]]]]].
+    exists ts, b, h, st. split; [|exact Hr]. unfold sort_desc in Hi. apply isort_by_in in Hi. exact Hi.
+  Qed.
+
+  (* ---- C07_before_damage / after_damage *)
+  Lemma replay_file_prefix : forall good rest r, Forall small good ->
+    replay_file r (frames good ++ rest) = replay_file (fold_left replay_frame good r) rest.
+  Proof.
+    intros good rest r Hs. unfold Wal.replay_file. rewrite parse_app by assumption.
+    destruct (parse rest) as [fs t]. cbn [fst snd]. rewrite fold_left_app. reflexivity.
+  Qed.
+
+  Lemma replay_file_skip : forall pre bad post r, Forall small pre -> small bad -> Forall small post ->
+    rejected bad ->
+    sc (replay_file r (frames (pre ++ bad :: post))) = sc (replay_file r (frames (pre ++ post))).
+  Proof.
+    intros pre bad post r Hp Hb Hq Hr.
+    rewrite !replay_file_sc. rewrite !parse_frames_exact.
+    2:{ apply Forall_app; split; assumption. }
+    2:{ apply Forall_app; split; [assumption | constructor; assumption]. }
+    cbn [fst]. rewrite !fold_left_app. cbn [fold_left].
+    destruct (fold_left replay_frame pre r) as [[st c] s].
+    pose proof (replay_frame_rejected bad (st, c, s) Hr) as [Hsc _].
+    destruct (replay_frame (st, c, s) bad) as [[st' c'] s']. cbn in Hsc. inv Hsc.
+    apply fold_replay_sc.
+  Qed.
+
+  (* ---- C07_stats: every rejected record and every torn tail is reported *)
+  Definition nev (r : rstate) : nat := length (s_events (snd r)).
+  Lemma replay_frame_nev : forall body r, (nev r <= nev (replay_frame r body))%nat.
+  Proof.
+    intros body [[st c] s]. unfold nev, Wal.replay_frame.
+    destruct (deser body) as [e|]; [|cbn; rewrite app_length; lia].
+    destruct (verify e); [|cbn; rewrite app_length; lia].
+    destruct (entry_changes e); cbn; lia.
+  Qed.
+  Lemma fold_replay_nev : forall bodies r, (nev r <= nev (fold_left replay_frame bodies r))%nat.
+  Proof.
+    induction bodies as [|b tl IH]; intro r; [cbn; lia|]. cbn [fold_left].
+    etransitivity; [apply (replay_frame_nev b)|apply IH].
+  Qed.
+  Lemma fold_replay_rejected : forall bodies r body, In body bodies -> rejected body ->
+    (nev r < nev (fold_left replay_frame bodies r))%nat.
+  Proof.
+    induction bodies as [|b tl IH]; intros r body Hi Hr; [contradiction|]. cbn [fold_left].
+    destruct Hi as [-> | Hi].
+    - pose proof (replay_frame_rejected body r Hr) as [_ [He _]].
+      pose proof (fold_replay_nev tl (replay_frame r body)). unfold nev in *. rewrite He, app_length in H. cbn in H. lia.
+    - pose proof (replay_frame_nev b r). pose proof (IH (replay_frame r b) body Hi Hr). lia.
+  Qed.
+  Lemma replay_file_nev : forall r b,
+    (nev (fold_left replay_frame (fst (parse b)) r) <= nev (replay_file r b))%nat /\
+    (snd (parse b) = true -> (nev (fold_left replay_frame (fst (parse b)) r) < nev (replay_file r b))%nat).
+  Proof.
+    intros r b. unfold Wal.replay_file. destruct (parse b) as [fs t]. cbn [fst snd].
+    destruct (fold_left replay_frame fs r) as [[st c] s]. unfold nev. destruct t; cbn; [rewrite app_length; cbn|]; split; intros; try lia; discriminate.
+  Qed.
+  Lemma fold_files_nev : forall files r, (nev r <= nev (fold_left replay_file files r))%nat.
+  Proof.
+    induction files as [|b tl IH]; intro r; [cbn; lia|]. cbn [fold_left].
+    pose proof (replay_file_nev r b) as [H _]. pose proof (fold_replay_nev (fst (parse b)) r).
+    pose proof (IH (replay_file r b)). lia.
+  Qed.
+  Lemma fold_files_damage : forall files r b, In b files ->
+    (snd (parse b) = true \/ exists body, In body (fst (parse b)) /\ rejected body) ->
+    (nev r < nev (fold_left replay_file files r))%nat.
+  Proof.
+    induction files as [|b0 tl IH]; intros r b Hi Hd; [contradiction|]. cbn [fold_left].
+    destruct Hi as [-> | Hi].
+    - pose proof (fold_files_nev tl (replay_file r b)). pose proof (replay_file_nev r b) as [H1 H2].
+      pose proof (fold_replay_nev (fst (parse b)) r).
+      destruct Hd as [Ht | [body [Hb Hr]]].
+      + specialize (H2 Ht). lia.
+      + pose proof (fold_replay_rejected _ r body Hb Hr). lia.
+    - pose proof (replay_file_nev r b0) as [H1 _]. pose proof (fold_replay_nev (fst (parse b0)) r).
+      pose proof (IH (replay_file r b0) b Hi Hd). lia.
+  Qed.
+  Lemma load_snaps_nev : forall l s ts b, In (ts, b) l -> snap_valid b = None ->
+    (forall ts' b', In (ts', b') l -> ts < ts' -> snap_valid b' = None) ->
+    StronglySorted (fun x y => fst y <= fst x) l -> NoDup (map fst l) ->
+    (length (s_events s) < nev (load_snaps l s))%nat.
+  Proof.
+    unfold nev. induction l as [|[t0 b0] tl IH]; intros s ts b Hi Hv Hnewer Hs Hnd; [contradiction|].
+    cbn [Wal.load_snaps]. inv Hs. inv Hnd. destruct Hi as [Heq | Hi].
+    - inv Heq. rewrite Hv.
+      assert (Hge : forall l' s', (length (s_events s') <= length (s_events (snd (load_snaps l' s'))))%nat).
+      { induction l' as [|[t1 b1] tl' IH']; intro s'; [cbn; lia|]. cbn [Wal.load_snaps].
+        destruct (snap_valid b1) as [[h st]|]; [cbn; lia|].
+        etransitivity; [|apply IH']. cbn. rewrite app_length. lia. }
+      pose proof (Hge tl (st_event s EvSnapBad)). cbn in H. rewrite app_length in H. cbn in H. lia.
+    - assert (Hlt : ts < t0).
+      { rewrite Forall_forall in H2. specialize (H2 _ Hi). cbn in H2.
+        assert (ts <> t0) by (intro; subst; apply H3; apply (in_map fst) in Hi; exact Hi). lia. }
+      rewrite (Hnewer t0 b0 (or_introl eq_refl) Hlt).
+      assert (IHs := IH (st_event s EvSnapBad) ts b Hi Hv
+                        (fun ts' b' H' => Hnewer ts' b' (or_intror H')) H1 H4).
+      cbn in IHs. rewrite app_length in IHs. cbn in IHs. lia.
+  Qed.
+
+  Lemma recover_reports_damage : forall d b, In b (wal_files d) ->
+    (snd (parse b) = true \/ exists body, In body (fst (parse b)) /\ rejected body) ->
+    s_events (r_stats (recover d)) <> [].
+  Proof.
+    intros d b Hi Hd. unfold Wal.recover, r_stats.
+    pose proof (fold_files_damage (wal_files d) (load_snaps (sort_desc (d_snap d)) stats0) b Hi Hd) as H.
+    unfold nev in H. intro E. rewrite E in H. cbn in H. lia.
+  Qed.
+End RecoveryFacts.
+
+(* ================================================================ the MAC input binds every field *)
+Lemma app_eq_len : forall {A} (a a' b b' : list A), length a = length a' -> a ++ b = a' ++ b' -> a = a' /\ b = b'.
+Proof.
+  induction a as [|x a IH]; destruct a' as [|y a']; intros b b' Hl H; cbn in *; try discriminate; [auto|].
+  inv H. destruct (IH a' b b') as [-> ->]; auto.
+Qed.
+Lemma le_bytes_inj : forall n x y, x < 256 ^ N.of_nat n -> y < 256 ^ N.of_nat n -> le_bytes n x = le_bytes n y -> x = y.
+Proof. intros n x y Hx Hy H. rewrite <- (le_val_le_bytes n x Hx), <- (le_val_le_bytes n y Hy), H. reflexivity. Qed.
+
+Definition u64 (x : N) : Prop := x < 18446744073709551616.
+Lemma u64_pow : forall x, u64 x -> x < 256 ^ N.of_nat 8.
+Proof. intros x H. exact H. Qed.
+
+Lemma ttype_code_inj : forall a b, ttype_code a = ttype_code b -> a = b.
+Proof. destruct a, b; cbn; intro H; try reflexivity; discriminate. Qed.
+
+Lemma entry_fields_inj : forall ver txid ts t k v ver' txid' ts' t' k' v',
+  u64 txid -> u64 ts -> u64 txid' -> u64 ts' -> u64 (len k) -> u64 (len k') ->
+  (forall x, v = Some x -> u64 (len x)) -> (forall x, v' = Some x -> u64 (len x)) ->
+  entry_fields ver txid ts t k v = entry_fields ver' txid' ts' t' k' v' ->
+  ver = ver' /\ txid = txid' /\ ts = ts' /\ t = t' /\ k = k' /\ v = v'.
+Proof.
+  intros ver txid ts t k v ver' txid' ts' t' k' v' H1 H2 H3 H4 H5 H6 H7 H8 H.
+  unfold entry_fields in H.
+  apply app_eq_len in H as [Hver H]; [|reflexivity].
+  apply app_eq_len in H as [Ha H]; [|rewrite !le_bytes_length; reflexivity].
+  apply app_eq_len in H as [Hb H]; [|rewrite !le_bytes_length; reflexivity].
+  apply app_eq_len in H as [Hc H]; [|reflexivity].
+  apply app_eq_len in H as [Hd H]; [|rewrite !le_bytes_length; reflexivity].
+  apply le_bytes_inj in Ha; try (apply u64_pow; assumption).
+  apply le_bytes_inj in Hb; try (apply u64_pow; assumption).
+  apply le_bytes_inj in Hd; try (apply u64_pow; assumption).
+  assert (Hver' : ver = ver') by congruence.
+  assert (Hc' : t = t') by (apply ttype_code_inj; congruence).
+  apply app_eq_len in H as [He H]; [|unfold len in Hd; lia].
+  repeat (split; [assumption|]).
+  destruct v as [x|], v' as [y|]; try discriminate; [|reflexivity].
+  apply app_eq_len in H as [_ H]; [|reflexivity].
+  apply app_eq_len in H as [Hf H]; [|rewrite !le_bytes_length; reflexivity].
+  congruence.
 Qed.
